@@ -307,14 +307,14 @@ for tin, tout in (('u8', 'u16'), ('u16', 'u32'), ('u32', 'u64')):
 # value-bounded: each function has a small-bound contract in the per-change tier and a larger one in the thorough tier
 # (two shims of the same call, because a contract is keyed by its shim).
 XI = dict(build=B[d_gx.name])
-for sfx_, ymax, tier_ in (('_y3', 3, 'quick'), ('', 8, 'thorough')):
+for sfx_, ymax, tier_ in (('_y4', 4, 'quick'), ('', 12, 'thorough')):
     d_gx.shim('glm_pow_i32' + sfx_, 'int32_t', [('int32_t', 'x'), ('uint8_t', 'y')], 'return glm::pow(x, static_cast<glm::uint>(y));')
     d_gx.shim('glm_pow_u32' + sfx_, 'uint32_t', [('uint32_t', 'x'), ('uint8_t', 'y')], 'return glm::pow(x, static_cast<glm::uint>(y));')
-    P.contract('glm_pow_i32' + sfx_, 'glm::pow(int, uint)  ' + F_XI, unwind=ymax + 2, bounded='y <= %d' % ymax, backends=('z3', 'cvc5', 'sat'), timeout=300, tier=tier_,
-               requires=[('exponent_bound', 'y <= %d' % ymax), ('result_representable', 'spec_ipow_s32((s64)(s32)x, y, %d) != SPEC_IPOW_NOFIT' % ymax)],
+    P.contract('glm_pow_i32' + sfx_, 'glm::pow(int, uint)  ' + F_XI, unwind=ymax + 2, bounded='y <= %d' % ymax, backends=('sat', 'z3'), timeout=300, tier=tier_,
+               requires=[('exponent_bound', 'y <= %d' % ymax), ('result_representable', 'spec_ipow_fits_s32((s64)(s32)x, y)')],
                ensures=[('x_to_the_y_exact', '(s64)(s32)RESULT == spec_ipow_s32((s64)(s32)x, y, %d)' % ymax)], **XI)
-    P.contract('glm_pow_u32' + sfx_, 'glm::pow(uint, uint)  ' + F_XI, unwind=ymax + 2, bounded='y <= %d' % ymax, backends=('z3', 'cvc5', 'sat'), timeout=300, tier=tier_,
-               requires=[('exponent_bound', 'y <= %d' % ymax), ('result_representable', 'spec_upow_u32((u64)x, y, %d) != SPEC_UPOW_NOFIT' % ymax)],
+    P.contract('glm_pow_u32' + sfx_, 'glm::pow(uint, uint)  ' + F_XI, unwind=ymax + 2, bounded='y <= %d' % ymax, backends=('sat', 'z3'), timeout=300, tier=tier_,
+               requires=[('exponent_bound', 'y <= %d' % ymax), ('result_representable', 'spec_upow_fits_u32((u64)x, y)')],
                ensures=[('x_to_the_y_exact', '(u64)RESULT == spec_upow_u32((u64)x, y, %d)' % ymax)], **XI)
 for sfx_, xmax, unw, tier_ in (('_x255', 255, 12, 'quick'), ('', 65535, 20, 'thorough')):
     d_gx.shim('glm_sqrt_i32' + sfx_, 'int32_t', [('int32_t', 'x')], 'return glm::sqrt(x);')
@@ -347,3 +347,8 @@ P.technique = 'CBMC code contracts (DFCC enforce) on mechanically extracted C; S
 P.design_ref = 'DESIGN.md section 6 C18'
 P.assumptions = []
 P.not_covered = []
+
+import os
+if os.environ.get('C18_PROBE'):   # development aid: run thorough-tier contracts with their declared timeouts
+    for c in P.contracts:
+        c.tier = 'quick'
